@@ -14,9 +14,9 @@ import (
 	"github.com/anishathalye/porcupine"
 	"github.com/rs/zerolog"
 	"github.com/rs/zerolog/diode"
-	zlog "github.com/rs/zerolog/log"
 	"github.com/rs/zerolog/diode/verifh/evid"
 	"github.com/rs/zerolog/diode/verifh/rng"
+	zlog "github.com/rs/zerolog/log"
 )
 
 func init() {
